@@ -103,14 +103,15 @@ def build_fn(src_root, d, contract, hint_specs, tailproof, vacuity):
             if a not in sig:
                 raise GenError(f"anchor lost: signature of {d['fn']} no longer contains `{a}`")
             sig = sig.replace(a, b)
-    body_text = f['body']
+    parts = rsparse.split_top_level(f['body'])
     subs_done = []
     for a_, b_ in d.get('_subs', []):
-        if body_text.count(a_) != 1:
-            raise GenError(f"anchor lost: `{a_}` occurs {body_text.count(a_)} times in {d['fn']} (expected exactly once)")
-        body_text = body_text.replace(a_, b_)
+        hits = [k for k, (t, _s) in enumerate(parts) if a_ in t]
+        if len(hits) != 1 or parts[hits[0]][0].count(a_) != 1:
+            raise GenError(f"anchor lost: `{a_}` does not occur exactly once in {d['fn']}")
+        k = hits[0]
+        parts[k] = (parts[k][0].replace(a_, b_), parts[k][1])
         subs_done.append(f'{a_} =====> {b_}')
-    parts = rsparse.split_top_level(body_text)
     stmts = [t for t, sep in parts if sep]
     tail = parts[-1][0]
     tail_code = rsparse.strip_comments(tail).strip()
